@@ -25,7 +25,7 @@ On(m) == Mode = "all" \/ Mode = m
 Rand(n) == {i \in Priv : (((n + 3) * (i + 7) * 2654 + n * 97 + i * 1009 + Seed * 31) % 4093) % 2 = 1}   \* (< 2^31 for n <= 10000)
 
 (* ---- C05 cases ------------------------------------------------------------ *)
-Pick(r) == {(Seed * 7 + r.t + j * 11) % 64 : j \in 1..1}
+Pick(r) == IF (r.t + Seed) % 2 = 0 THEN {(Seed * 7 + r.t + 11) % 64} ELSE {}   \* (quick: every other transaction type)
 Readings(r) == {r.req} \cup r.alts
 Mention(r) == UNION Readings(r)
 AccSets(r) ==
